@@ -1,5 +1,6 @@
 """C06 — parameterised rules behave like their expansion."""
 import itertools
+import sys
 import re
 import random
 
@@ -125,9 +126,77 @@ TEXTS = [''.join(p) for L in range(0, 4) for p in itertools.product('ab1', repea
      'aabbaa', '11aa11', 'a,_,b;(1,_,2)', '(1,_,2);a,_,b', '(1)a', 'a;(1)', '(1);a', 'a,b;(a,b)', '(_);_', 'xxa', 'xa', 'a', 'xxxa', '1a1aa', '1a1aa1', '1b1ba', '1a1ba', '1ab1aba', '1a1', '!b!', 'aa1', 'aab', 'aa', 'ab', '1111', 'aaaa', 'ab-ab', 'a1-a1', '!b!', 'b!b']
 
 
+PY_ARGS = [
+    # (template definitions, call, expansion): arguments written as inline Python outside the model's vocabulary; the call
+    # is compared with its hand-made expansion on the implementation alone
+    ('One(a) = `a`', 'One(`1, 2`)', '`(1, 2)`'),
+    ('One(a) = `a`', 'One(a=`1, 2`)', '`(1, 2)`'),
+    ('Two(a, b) = `[a, b]`', 'Two(`1 if "x" else 2`, b=` lambda v: v `) |> `lambda r: [r[0], r[1](7)]`', '`[1, 7]`'),
+    ('Two(a, b) = `[a, b]`', 'Two(b=`[x for x in (1, 2)]`, a=`{"k": (1, 2)}`)', '`[{"k": (1, 2)}, [1, 2]]`'),
+    ('Cnt(x, k) = x{k}', 'Cnt("a", `2 if True else 3`) << /a*/', '"a"{2} << /a*/'),
+    ('Cnt(x, k) = x{k}', 'let n = `1` in Cnt("a", ` n + 1 `) << /a*/', '"a"{2} << /a*/'),
+]
+
+
+def python_arguments(R):
+    sys.path.insert(0, core.REPO)
+    from sourcer import Grammar
+    from .c11 import outcome
+    for named in (False, True):
+        for k, (defs, call, expansion) in enumerate(PY_ARGS):
+            head = f'grammar c06py{k}\n' if named else ''
+            case = {'call': head + f'start = {call}\n{defs}\n', 'expansion': f'start = {expansion}\n'}
+            try:
+                gc, ge = Grammar(case['call']), Grammar(case['expansion'])
+            except Exception as e:          # noqa
+                R.count('python-arguments', (named, k))
+                R.counterexample('python-arguments', 'call-site-rejected:' + type(e).__name__, case, 'two grammar modules', str(e)[:160])
+                continue
+            for text in ('', 'a', 'aa', 'aaa', 'aaaa'):
+                R.count('python-arguments', (named, k, text), nontrivial=True)
+                a, b = outcome(gc, text), outcome(ge, text)
+                if a != b:
+                    R.counterexample('python-arguments', 'call-differs-from-expansion', dict(case, text=text), b, a)
+                else:
+                    R.traces += 1
+
+
+def inherited_templates(R):
+    """a template inherited from a grammar WITHOUT ignore patterns, called from a grammar WITH them: the same literal text
+    is passed by parent and child at the same position, and each call behaves like its expansion"""
+    sys.path.insert(0, core.REPO)
+    from sourcer import Grammar
+    from .c11 import outcome
+    k = 0
+    for tpl, arg, exp in [('T(p) = p', '"a"', '"a"'), ('T(p) = [p, Opt(p)]', '"a"', '["a", Opt("a")]'), ('T(p) = p*', '"ab"', '"ab"*'),
+                          ('T(p, q) = p >> q', '"a", "a"', '"a" >> "a"')]:
+        for body in ('[Lit << "!" | Mine << "b", /.*/]', '[Expect(Lit), Mine, /.*/]', '[Mine << "!" | Lit, /.*/]'):
+            k += 1
+            base = f'grammar c06ia{k}\n{tpl}\nLit = T({arg})\nstart = Lit\n'
+            child = f'grammar c06ib{k} extends c06ia{k}\nignore Space = / +/\nMine = T({arg})\nstart = {body}\n'
+            flat = f'grammar c06ic{k} extends c06ia{k}\nignore Space = / +/\nMine = {exp}\nstart = {body}\n'
+            case = {'base': base, 'child_with_calls': child, 'child_with_expansions': flat}
+            try:
+                Grammar(base)
+                gc, ge = Grammar(child), Grammar(flat)
+            except Exception as e:          # noqa
+                R.count('inherited-templates', k)
+                R.counterexample('inherited-templates', 'call-site-rejected:' + type(e).__name__, case, 'grammar modules', str(e)[:160])
+                continue
+            for text in ('a b', 'a', 'a!', 'a  a', 'ab ab', 'a a b', 'aa', ' a', 'a !', ''):
+                R.count('inherited-templates', (k, text), nontrivial=True)
+                a, b = outcome(gc, text), outcome(ge, text)
+                if a != b:
+                    R.counterexample('inherited-templates', 'call-differs-from-expansion', dict(case, text=text), b, a)
+                else:
+                    R.traces += 1
+
+
 def run(R):
     R.build()
     R.prove('Props/C06.v')
+    python_arguments(R)
+    inherited_templates(R)
     jobs, gid, pairs = [], 0, {}
     for named in (False, True):
         for site, expansion in SITES:
